@@ -35,3 +35,18 @@ Fixpoint run_fops (s : fstate) (l : list fop) : list Z :=
   | ORelease p :: tl => run_fops (fstep s (Release p)) tl
   end.
 Definition run_fmmu_ops (l : list fop) : V := VL (map VZ (run_fops {| used := []; held := [] |} l)).
+
+(* the same operations on the BYTES of the map file (Sys/FmmuBytes.v, proved to refine fstep), from any initial file content *)
+From Verif Require Import Sys.FmmuBytes.
+Fixpoint first_free_b (m : bmap) (draws : list Z) : Z :=
+  match draws with [] => -1 | d :: tl => if testb m d then first_free_b m tl else d end.
+Fixpoint run_bops (mh : bmap * list (Z * Z)) (l : list fop) : bmap * list Z :=
+  match l with
+  | [] => (fst mh, [])
+  | OAlloc p draws :: tl =>
+      let a := first_free_b (fst mh) draws in
+      let '(m', ws) := run_bops (bstep mh (Alloc p a)) tl in (m', a :: ws)
+  | ORelease p :: tl => run_bops (bstep mh (Release p)) tl
+  end.
+Definition run_fmmu_bytes (init : list Z) (ops : list fop) : V :=
+  let '(m, ws) := run_bops (init, []) ops in VL [VB m; VL (map VZ ws)].
